@@ -454,8 +454,12 @@ Proof.
     rewrite existsb_map_snd. reflexivity.
 Qed.
 
-(* a readSrcMap without dead entries (every source field claimed at most one destination: no fan-out): the model's own
-   allocation list, which ranges over ALL entries of its association list *)
+(* the live entries of the translation's readSrcMap are those of the model (Mapper.m_live: `analyse` ranges over the
+   live entries since the repair of the disagreement found by this tie) *)
+Lemma live_is_m_live m : live m = m_live m.
+Proof. induction m as [|[k v] m IH]; [reflexivity|]. cbn [live m_live]. rewrite IH. reflexivity. Qed.
+
+(* (kept: without dead entries the live list is the list itself) *)
 Lemma live_nodup m : NoDup (map fst m) -> live m = m.
 Proof.
   induction m as [|[k v] m IH]; intros N; [reflexivity|]. cbn [live]. inversion N as [|? ? Nin N']; subst. rewrite (IH N'). f_equal.
@@ -463,16 +467,16 @@ Proof.
   intros ->. apply Nin. now apply (in_map fst) in I.
 Qed.
 
-Theorem nilCheckWrite_is_analyse : forall (w : kworld), NoDup (map fst (s_rmap (k_st w))) ->
+Theorem nilCheckWrite_is_analyse : forall (w : kworld),
   exists w', nilCheckWrite w = (Returned tt, w')
     /\ k_srclist w' = ptr_path_list (k_sigma w) (k_srcptr w) (s_src (k_st w))
                                     (fun f => match m_get (s_wmap (k_st w)) (f_name f) with Some _ => true | None => false end)
     /\ k_dstlist w' = ptr_path_list (k_sigma w) (k_dstptr w) (s_dst (k_st w))
-                                    (fun f => existsb (fun kv => String.eqb (f_name f) (snd kv)) (s_rmap (k_st w))).
+                                    (fun f => existsb (fun kv => String.eqb (f_name f) (snd kv)) (m_live (s_rmap (k_st w)))).
 Proof.
-  intros w N. destruct (nilCheckWrite_is_model w) as (w' & E & A & B & _). exists w'. split; [exact E|]. split.
+  intros w. destruct (nilCheckWrite_is_model w) as (w' & E & A & B & _). exists w'. split; [exact E|]. split.
   - rewrite A. unfold ptr_path_list. f_equal. apply fold_left_ext. intros acc f. now rewrite m_get_has.
-  - rewrite B, (live_nodup _ N). reflexivity.
+  - rewrite B, live_is_m_live. reflexivity.
 Qed.
 
 (* ================= C09 / C05: the plan of [analyse] is assembled from what the SOURCE computes ================= *)
@@ -502,7 +506,6 @@ Lemma map_fst_with_ty (pm : ptrmap) (l : list path) :
 Proof. rewrite map_map. cbn [fst]. apply map_id. Qed.
 
 Theorem C09_plan_inputs_src : forall sigma jb a, analyse sigma jb = Some a ->
-  NoDup (map fst (s_rmap (a_state a))) ->
   exists w4, check_run (world_of (a_state a) (p_ptr (a_src_parsed a)) (p_ptr (a_dst_parsed a)) sigma) = (Returned tt, w4)
     (* the read guards of ToX: the pointer hops on the way to the field read, for the fields nilCheckRead marks *)
     /\ pl_stmts (a_to a) = to_stmts (k_srcpaths w4) (has (k_srcneed w4)) (a_state a)
@@ -510,7 +513,7 @@ Theorem C09_plan_inputs_src : forall sigma jb a, analyse sigma jb = Some a ->
     /\ (a_use_dst_ctor a = false -> map fst (pl_alloc (a_to a)) = k_dstlist w4)
     /\ (a_use_src_ctor a = false -> map fst (pl_alloc (a_from a)) = k_srclist w4).
 Proof.
-  intros sigma jb a A N. unfold analyse in A. destruct (prepare jb) as [pr|]; [|discriminate]. inversion A; subst a; clear A.
+  intros sigma jb a A. unfold analyse in A. destruct (prepare jb) as [pr|]; [|discriminate]. inversion A; subst a; clear A.
   cbn [a_state a_src_parsed a_dst_parsed a_to a_from a_use_dst_ctor a_use_src_ctor pl_stmts pl_alloc] in *.
   set (s2 := run_passes _ _ _ _ _) in *. set (sp := p_ptr (pr_src pr)). set (dp := p_ptr (pr_dst pr)).
   unfold check_run. set (w0 := world_of s2 sp dp sigma).
@@ -519,7 +522,7 @@ Proof.
   rewrite (prepareReadPaths_dst_is_paths_map w1 eq_refl).
   set (w2 := set_dstpaths _ w1).
   rewrite nilCheckRead_is_model. set (w3 := with_needs _ _ w2).
-  destruct (nilCheckWrite_is_analyse w3 N) as (w4 & E4 & SL & DL).
+  destruct (nilCheckWrite_is_analyse w3) as (w4 & E4 & SL & DL).
   destruct (nilCheckWrite_is_model w3) as (w4' & E4' & _ & _ & St & Sp & Dp & Sn & Dn). rewrite E4 in E4'. inversion E4'; subst w4'; clear E4'.
   exists w4. split; [exact E4|]. split; [|split].
   - rewrite Sp, Sn. cbn [w3 with_needs w2 w1 w0 world_of set_srcneed set_dstneed set_dstpaths set_srcpaths upd_k k_srcpaths k_srcneed k_st].
